@@ -83,3 +83,53 @@ Proof.
   - intros j _. destruct (proj1 (constraints_only_touch cs fs sup i j) Hs) as (H & _). exact H.
   - destruct (proj1 (constraints_only_touch cs fs sup i i) Hs) as (_ & _ & H). exact H.
 Qed.
+
+(* ---- the residual the loop carries along is the residual of its current x (exact arithmetic): what solutionGoodEnough
+   tests against MaxError = error / 2 is f - K x itself ---- *)
+Lemma fold_add (h : nat -> Q) : forall l s,
+  fold_left (fun acc j => acc + h j) l s == s + fold_left (fun acc j => acc + h j) l 0.
+Proof.
+  induction l as [|j l IH]; intros s; [cbn; ring|]. cbn [fold_left]. rewrite (IH (s + h j)), (IH (0 + h j)). ring.
+Qed.
+
+Lemma sum_linear (g u v : nat -> Q) (a : Q) : forall l,
+  fold_left (fun acc j => acc + g j * (u j + a * v j)) l 0 ==
+  fold_left (fun acc j => acc + g j * u j) l 0 + a * fold_left (fun acc j => acc + g j * v j) l 0.
+Proof.
+  induction l as [|j l IH]; [cbn; ring|]. cbn [fold_left].
+  pose proof (fold_add (fun j => g j * (u j + a * v j)) l (0 + g j * (u j + a * v j))) as H1.
+  pose proof (fold_add (fun j => g j * u j) l (0 + g j * u j)) as H2.
+  pose proof (fold_add (fun j => g j * v j) l (0 + g j * v j)) as H3.
+  cbv beta in H1, H2, H3. rewrite H1, H2, H3, IH. ring.
+Qed.
+
+Section Residual.
+Variable n : nat.
+Variable A : nat -> nat -> Q.
+Variable b : nat -> Q.
+
+Lemma mv_linear (u v : nat -> Q) (a : Q) (i : nat) :
+  pcg_mv n A (fun j => u j + a * v j) i == pcg_mv n A u i + a * pcg_mv n A v i.
+Proof. unfold pcg_mv. apply sum_linear. Qed.
+
+Definition true_residual (s : pcg_state) : Prop := forall i, pcg_r s i == b i - pcg_mv n A (pcg_x s) i.
+
+Lemma init_residual : true_residual (pcg_init n A b).
+Proof. intros i. unfold pcg_init. cbn [pcg_r pcg_x]. reflexivity. Qed.
+
+Lemma step_residual s : true_residual s -> true_residual (pcg_step n A s).
+Proof.
+  intros H i. unfold pcg_step. cbn [pcg_r pcg_x].
+  set (alpha := pcg_dot n (pcg_r s) (pcg_pre A (pcg_r s)) / pcg_dot n (pcg_p s) (pcg_mv n A (pcg_p s))).
+  rewrite (mv_linear (pcg_x s) (pcg_p s) alpha i), (H i). ring.
+Qed.
+
+(* THEOREM: after any number of passes the vector r the loop tests is b - A x for the x it would return *)
+Theorem the_residual_tested_is_the_residual_of_the_answer (k : nat) :
+  forall i, pcg_r (pcg_iter n A k (pcg_init n A b)) i == b i - pcg_mv n A (pcg_answer n A b k) i.
+Proof.
+  unfold pcg_answer. generalize (pcg_init n A b) init_residual. induction k as [|k IH]; intros s H; [exact H|].
+  cbn [pcg_iter]. apply IH, step_residual, H.
+Qed.
+End Residual.
+
